@@ -132,9 +132,32 @@ def extract(tree):
         raise ExtractError("janet_table_put and put_no_overwrite disagree on the rehash rule: %r vs %r" % tuple(tests))
     out["rehash_test"], out["rehash_size"] = tests[0]
     rem = csrc.func_body(tab, "janet_table_remove")
-    m = re.search(r"t->count--\s*;\s*t->deleted\+\+\s*;\s*bucket->key\s*=\s*janet_wrap_(\w+)\s*\(\s*\)\s*;\s*bucket->value\s*=\s*janet_wrap_(\w+)\s*\(\s*\)\s*;", rem)
+    # the four statements of the removal are independent of each other: accepted in any order (key / value writes are
+    # identified by their left-hand side), each exactly once, nothing else between them
+    blk = re.search(r"((?:\s*(?:t->count--|--t->count|t->count\s*-=\s*1|t->deleted\+\+|\+\+t->deleted|t->deleted\s*\+=\s*1|bucket->key\s*=\s*janet_wrap_\w+\s*\(\s*\)|bucket->value\s*=\s*janet_wrap_\w+\s*\(\s*\))\s*;){4})", rem)
+    m = None
+    if blk:
+        stmts = [re.sub(r"\s+", "", x) for x in blk.group(1).split(";") if x.strip()]
+        cnt = [x for x in stmts if x in ("t->count--", "--t->count", "t->count-=1")]
+        dele = [x for x in stmts if x in ("t->deleted++", "++t->deleted", "t->deleted+=1")]
+        kw = [re.fullmatch(r"bucket->key=janet_wrap_(\w+)\(\)", x) for x in stmts]
+        vw = [re.fullmatch(r"bucket->value=janet_wrap_(\w+)\(\)", x) for x in stmts]
+        kw, vw = [x for x in kw if x], [x for x in vw if x]
+        if len(cnt) == 1 and len(dele) == 1 and len(kw) == 1 and len(vw) == 1:
+            m = (kw[0].group(1), vw[0].group(1))
     if not m:
-        raise ExtractError("janet_table_remove: tombstone write not recognised")
+        raise ExtractError("janet_table_remove: tombstone write not recognised (expected count--, deleted++, bucket->key = janet_wrap_X(), bucket->value = janet_wrap_Y())")
+
+    class _M:
+        def __init__(self, g):
+            self.g = g
+
+        def group(self, i):
+            return self.g[i - 1]
+
+        def groups(self):
+            return self.g
+    m = _M(m)
     vals = {"nil": 0, "false": 1, "true": 2}
     if m.group(1) not in vals or m.group(2) not in vals:
         raise ExtractError("janet_table_remove: unexpected tombstone constants %r" % (m.groups(),))
